@@ -51,7 +51,7 @@ structure Machine (σ ρ : Type) where
 def showMat {K : Nat} (m : Mat Nat K) : String :=
   String.join (toString m.rows :: (m.toLists.flatten.map fun x => " " ++ toString x))
 
-/-- the consumer of the harness: stop at `end` / panic, `extra` calls after the first error -/
+/-- the consumer of the harness: stop at a panic, `extra` more calls after the first error or end -/
 def runLoop {σ ρ : Type} (M : Machine σ ρ) (detail : Bool) (extra : Nat) :
     Nat → σ → Option Nat → List String → List String
   | 0, _, _, acc => ("hang" :: acc).reverse
@@ -61,7 +61,10 @@ def runLoop {σ ρ : Type} (M : Machine σ ρ) (detail : Bool) (extra : Nat) :
     | _ =>
       let (o, s') := M.step s
       match o with
-      | .done => ("end" :: acc).reverse
+      | .done =>
+        -- end of input is an answer like any other: `extra` more requests follow
+        let left := match afterErr with | none => extra | some n => n - 1
+        runLoop M detail extra fuel s' (some left) ("end" :: acc)
       | .panic _ => ("panic" :: acc).reverse
       | .record r =>
         runLoop M detail extra fuel s' (afterErr.map (· - 1)) ((if detail then "R " ++ M.render r else "rec") :: acc)
@@ -72,7 +75,7 @@ def runLoop {σ ρ : Type} (M : Machine σ ρ) (detail : Bool) (extra : Nat) :
 def run {σ ρ : Type} (M : Machine σ ρ) (detail : Bool) (extra : Nat) (sched : List Nat) (data : Bytes) : String :=
   match M.init sched data with
   | .error _ => "new-panic"
-  | .ok s => " ; ".intercalate (runLoop M detail extra (data.length + 3 + extra) s none [])
+  | .ok s => " ; ".intercalate (runLoop M detail extra (data.length + 3 + 2 * extra) s none [])
 
 def jasparMachine : Machine Jaspar.State (CRecord dna.K) where
   init := fun sched data => .ok (Jaspar.new Jaspar.growAmortized sched data)
